@@ -196,7 +196,11 @@ FoldBlock(Lp, b) ==
       st0 == [u |-> Lp.u, meta |-> Lp.meta, fees |-> <<>>, iloc |-> Lp.iloc, envs |-> Lp.envs,
               order |-> Lp.order, floating |-> Lp.floating, revealedFee |-> {},
               runes |-> Lp.runes, runeOf |-> Lp.runeOf, rlog |-> <<>>]
-      st == FoldTxs(st0, b.txs, h, 1)
+      \* envelopes below the chain's first inscription height are not inscriptions
+      txs == IF h < Opt(cfg, "firstInscription", 0)
+             THEN [k \in 1..Len(b.txs) |-> [b.txs[k] EXCEPT !.envs = <<>>]]
+             ELSE b.txs
+      st == FoldTxs(st0, txs, h, 1)
       \* a duplicate coinbase has the txid -- hence the label -- of the coinbase it repeats: its outputs
       \* displace the older entries, and the sats still held there are destroyed
       cbl == IF Has(b, "dup") THEN "c" \o b.dup ELSE "c" \o b.id
